@@ -321,8 +321,13 @@ class Daemon(object):
         """Replace the configuration file and send SIGUSR1.  Every second reload of a daemon overwrites the file in place
         (same inode, possibly the same size and modification second), the others rename a new file over it."""
         self.nreload = getattr(self, "nreload", 0) + 1
+        import zlib
+        # how the new file gets there varies with the reload's number and with what the file says (deterministic for a given history)
+        mode = (self.nreload + zlib.crc32("\n".join(l for l in new_text.split("\n") if "library_path" not in l).encode("latin-1"))) % 4
+        old_mtime = False
         if inplace is None:
-            inplace = (self.nreload % 2 == 1)
+            inplace = mode in (0, 2)
+            old_mtime = mode == 3
         if inplace:
             with open(self.conf_path, "w", encoding="latin-1") as f:
                 f.write(new_text)
@@ -330,6 +335,9 @@ class Daemon(object):
             tmp = self.conf_path + ".new"
             with open(tmp, "w", encoding="latin-1") as f:
                 f.write(new_text)
+            if old_mtime:
+                # a file prepared long ago and moved into place (mv, cp -p, rsync -t): older than the one it replaces
+                os.utime(tmp, (1577836800 + self.nreload, 1577836800 + self.nreload))
             os.replace(tmp, self.conf_path)
         self.p.send_signal(signal.SIGUSR1)
         if wait and self.hooks:
